@@ -292,6 +292,12 @@ func (s *Server[StateT]) handleWriteFile(ctx *Context[StateT]) error {
 		return fmt.Errorf("drain file data to write failed: %w", drainErr)
 	}
 
+	// connection ended inside the announced payload (io.Copy takes EOF as success):
+	// request is incomplete, so it must not be answered
+	if lr, ok := data.(*io.LimitedReader); ok && lr.N > 0 {
+		return fmt.Errorf("file data to write truncated: %d bytes missing: %w", lr.N, io.ErrUnexpectedEOF)
+	}
+
 	if err != nil {
 		return ctx.wr.SendWriteFileError()
 	}
